@@ -218,6 +218,10 @@ def concrete_playback(unit, harness):
         chosen = {"bytes": vecs, "values_as_printed": comments, "check_kind": kind, "failed_check": label}
         break
     if chosen is None:
+        # a harness without symbolic inputs: Kani prints only the (empty) cover test
+        if blocks and all(not re.search(r"vec!\[[^\]]*\d", b[2]) for b in blocks):
+            return {"bytes": [], "values_as_printed": [], "check_kind": "assertion",
+                    "failed_check": "(harness has no symbolic input: the concrete tree itself is the counterexample)"}, out
         return None, out
     return chosen, out
 
